@@ -28,7 +28,7 @@ open Refine.Model.Sort
 
 /-- a value that is a lower bound of `d0` and of every candidate and is attained by one of them is
     determined by the SET of candidates -/
-private theorem min_char_unique {ι : Type} (f : ι → ℝ) (l1 l2 : List ι) (d0 v1 v2 : ℝ)
+theorem min_char_unique {ι : Type} (f : ι → ℝ) (l1 l2 : List ι) (d0 v1 v2 : ℝ)
     (hmem : ∀ c, c ∈ l1 ↔ c ∈ l2)
     (h1a : v1 ≤ d0) (h1b : ∀ c ∈ l1, v1 ≤ f c) (h1c : v1 = d0 ∨ ∃ c ∈ l1, v1 = f c)
     (h2a : v2 ≤ d0) (h2b : ∀ c ∈ l2, v2 ≤ f c) (h2c : v2 = d0 ∨ ∃ c ∈ l2, v2 = f c) :
